@@ -3,4 +3,4 @@ import ElkVerif.Props.C14
 #audit_obligations C14 [finally_once, finally_keeps_pending, finally_abrupt_wins, try_no_finally,
   catch_skip, catch_hit, catch_none, and_shortcircuit, and_evaluates_right, or_shortcircuit,
   or_evaluates_right, nilco_shortcircuit, nilco_evaluates_right, label_passes,
-  unlabelled_hits_innermost, while_false, while_step]
+  unlabelled_hits_innermost, while_false, while_step, fuel_monotone]
